@@ -518,6 +518,8 @@ func (ex *Exec) frameGoal(heap, ref string) (string, bool) {
 	var alts []string
 	if ref != "" {
 		alts = append(alts, fmt.Sprintf("(>= %s %s)", ref, r.top0))
+		// nothing can be written through nil (the nil obligation at the store guards that)
+		alts = append(alts, fmt.Sprintf("(= %s 0)", ref))
 	}
 	for _, t := range r.assignsTargets {
 		if t.heap != heap {
